@@ -809,8 +809,8 @@ func genCall(r *vh.Rng, seenNames *[]string, o genOpts) *callT {
 		if o.nonconfig && r.Chance(0.1) {
 			name = nonconfigNames[r.Pick(len(nonconfigNames))]
 		}
-		if r.Chance(0.05) && c.Node < 0 {
-			name = "_node"
+		if r.Chance(0.06) {
+			name = "_node" // with a context call this collides with the injected node JSON
 		}
 		if used[name] && r.Chance(0.7) {
 			continue
@@ -828,10 +828,27 @@ func genCall(r *vh.Rng, seenNames *[]string, o genOpts) *callT {
 	if o.malformed && r.Chance(0.03) {
 		c.Odd = true
 	}
+	nodeClash := false
+	if c.Node >= 0 && r.Chance(0.2) {
+		// a context call that ALSO passes an argument literally named _node, at any position and
+		// of any type: _node must still be the current node
+		a := argT{Name: "_node", Val: genArgVal(r)}
+		p := r.Pick(len(c.Args) + 1)
+		c.Args = append(c.Args[:p:p], append([]argT{a}, c.Args[p:]...)...)
+		mine = append(mine, "_node")
+		nodeClash = true
+	}
 	for {
 		// a script must not hand a built-in object or function out as its result (what such a
 		// thing exports to is goja's business, not this property's)
 		c.Script = genScript(r, mine, *seenNames, c.Node >= 0, 2)
+		if nodeClash && r.Chance(0.75) {
+			if r.Chance(0.5) {
+				c.Script = &SE{K: "var", X: "_node"}
+			} else {
+				c.Script = &SE{K: "arr", Es: []*SE{{K: "var", X: "_node"}, {K: "typeof", X: "_node"}}}
+			}
+		}
 		if w := intended(theTable, c, "{}"); w.Err || !hasOpq(w.Val) {
 			break
 		}
@@ -1406,9 +1423,11 @@ func main() {
 			var seen []string
 			var calls []*callT
 			for i, k := 0, r.Between(2, 9); i < k; i++ {
-				c := genCall(r, &seen, opts)
+				calls = append(calls, genCall(r, &seen, opts))
+			}
+			vh.Current(o, caseDesc{Kind: kind, Cache: cfg.Name, Calls: calls})
+			for _, c := range calls {
 				runDirect(c, nodes)
-				calls = append(calls, c)
 			}
 			desc := caseDesc{Kind: kind, Cache: cfg.Name, Calls: calls}
 			finish(r, sum, cw, it, tbl, cfg, calls, desc, judge)
@@ -1426,6 +1445,7 @@ func main() {
 					per[g] = append(per[g], genCall(r, &seen, opts))
 				}
 			}
+			vh.Current(o, caseDesc{Kind: kind, Cache: cfg.Name, Calls: per})
 			var wg sync.WaitGroup
 			for g := 0; g < G; g++ {
 				wg.Add(1)
@@ -1457,7 +1477,7 @@ func main() {
 					c = genCall(r, &seen, opts)
 					ok := true
 					for _, a := range c.Args {
-						if !schemaSafe(a.Val) || a.Name == "_node" {
+						if !schemaSafe(a.Val) {
 							ok = false
 						}
 					}
@@ -1474,6 +1494,7 @@ func main() {
 			}
 			input := "[" + strings.Join(recsIn, ",") + "]"
 			schema := buildSchema(fields)
+			vh.Current(o, caseDesc{Kind: kind, Cache: cfg.Name, Schema: schema, Input: input})
 			recs, fatal := runTransform(schema, input, fields)
 			desc := caseDesc{Kind: kind, Cache: cfg.Name, Schema: schema, Input: input}
 			if fatal != "" {
@@ -1494,6 +1515,7 @@ func main() {
 	}
 	v21.VerifSetDisableCaching(false)
 	v21.VerifResetCaches(0, 0)
+	vh.Done(o)
 	cw.Flush()
 	sum.CaseFiles = cw.Files
 	sum.Write(o)
